@@ -26,6 +26,8 @@ type World struct {
 	Funcs map[string]*ssa.Function
 	// contracts by key
 	Contracts *ContractSet
+	// package of each directory that holds a contract file
+	DirPkg map[string]*types.Package
 }
 
 const modulePath = "github.com/esimov/gogu"
@@ -170,6 +172,10 @@ func loadWorld(repo string) (*World, error) {
 			if err := cs.parseGoFile(name, f, p.Fset); err != nil {
 				return nil, err
 			}
+			if w.DirPkg == nil {
+				w.DirPkg = map[string]*types.Package{}
+			}
+			w.DirPkg[filepath.Dir(name)] = p.Types
 		}
 	}
 	w.Contracts = cs
